@@ -1216,7 +1216,12 @@ class NamespaceManager(dict):
         if self.parent:
             # all attempts have failed so far
             # now delegate this to the parent NamespaceManager
-            return self.parent.valid_qualified_name(qname)
+            parent_qname = self.parent.valid_qualified_name(qname)
+            if parent_qname is None:
+                return None
+            # re-home the name in this scope so that it stays unambiguous here
+            # even if the prefix is later bound to another namespace locally
+            return self.valid_qualified_name(parent_qname)
 
         # Default to FAIL
         return None
